@@ -93,6 +93,9 @@ def edit_case(rng, c, kind):
                     cur = dict((q, w) for q, w in a["to"]["v"]).get(x, cur)
                 pairs.append([x, cur])
         a["to"] = M(pairs)
+        if kind == "same-position" and len(a["axis"]) > 1 and rng.random() < 0.4:
+            # one position word for every axis of the call: the data is there already along (at least) this axis
+            a["to"] = S(t)
     elif kind == "boundary-word":
         w = rng.choice(["bogus", "Fill", "wrap", "dirichlet"])
         r_ = rng.random()
@@ -198,7 +201,12 @@ def exec_transform(case):
         target = np.array(t["bins"], dtype=t.get("bins_dtype", "float64"))       # small non-negative integers: exact in every dtype
         if t.get("target_da"):
             target = xr.DataArray(target, dims=["lev"])
+            if t.get("target_lazy"):
+                target = target.chunk({"lev": 1 + len(t["bins"]) // 2})
+        if t.get("data_lazy"):
+            da = da.expand_dims(e=2).chunk({"e": 1})
         res = grid.transform(da, "Z", target, target_data=theta, method=t["method"], **more)
+        res = res.compute()          # a lazy answer refused only when it is computed is still refused
         rec["out"] = {"k": "array", "dims": [str(d) for d in res.dims], "shape": [int(s) for s in res.shape]}
     except Exception as ex:
         rec["out"] = model.encode_error(ex)
@@ -226,7 +234,8 @@ def gen_transform(rng, n):
                 bins = bins[::-1]
         out.append({"ev": "TransformIll", "t": {"periodic": rng.choice([False, False, True, "default"]), "method": method,
                                                 "has_outer": rng.random() < 0.6, "bins": bins,
-                                                "bypass": rng.choice(["none", "none", "true", "false"]), "target_da": rng.random() < 0.3,
+                                                "bypass": rng.choice(["none", "none", "true", "false"]), "target_da": rng.random() < 0.4,
+                                                "target_lazy": rng.random() < 0.5, "data_lazy": rng.random() < 0.2,
                                                 "bins_dtype": rng.choice(["float64", "float64", "int64", "uint8", "uint16", "float32"])}})
     return out
 
